@@ -1,43 +1,75 @@
 #!/usr/bin/env python3
-"""run_seeded.py [ids...] : apply each seeded change under /verif/seeded to /repo, run the checks,
-revert, and record which checks fire.  Writes seeded/RESULTS.json and updates each meta.json."""
-import json, os, subprocess, sys, re
+"""run_seeded.py [-j N] [ids...] : developer tool (never a registered command).
+Applies each seeded change under /verif/seeded to a *scratch copy* of /repo (under /tmp, removed at the end), runs the checks
+against that copy (VERIF_REPO / VERIF_CACHE / VERIF_EVIDENCE redirected, so /repo, /verif/.cache and /verif/evidence are not
+touched) and records which checks fire in seeded/RESULTS.json and in each meta.json.
+ALL_CHECKS=1 runs all claimed checks per change, otherwise only the change's own property."""
+import json, os, subprocess, sys, shutil
+from concurrent.futures import ThreadPoolExecutor
+
 VERIF = "/verif"
 SEED = os.path.join(VERIF, "seeded")
+ROOT = "/tmp/verif-seedrun"
 manifest = json.load(open(os.path.join(VERIF, "MANIFEST.json")))
 claimed = [c["property_id"] for c in manifest["checks"]]
-ids = sys.argv[1:] or sorted(os.listdir(SEED))
-ids = [i for i in ids if os.path.isdir(os.path.join(SEED, i))]
+args = sys.argv[1:]
+jobs = 4
+if args and args[0] == "-j":
+    jobs = int(args[1]); args = args[2:]
+ids = args or sorted(os.listdir(SEED))
+ids = [i for i in ids if os.path.isdir(os.path.join(SEED, i)) and os.path.exists(os.path.join(SEED, i, "meta.json"))]
 all_checks = os.environ.get("ALL_CHECKS") == "1"
 results = {}
 try:
     results = json.load(open(os.path.join(SEED, "RESULTS.json")))
 except Exception:
     pass
-assert subprocess.run("git -C /repo status --short", shell=True, capture_output=True, text=True).stdout.strip() == "", "repo dirty"
-for sid in ids:
-    d = os.path.join(SEED, sid)
-    meta = json.load(open(os.path.join(d, "meta.json")))
-    prop = meta["property"]
-    r = subprocess.run("git -C /repo apply %s/patch.diff" % d, shell=True, capture_output=True, text=True)
-    if r.returncode != 0:
-        results[sid] = {"applies": False, "error": r.stderr[-300:]}
-        print(sid, "PATCH DOES NOT APPLY", r.stderr[-200:])
-        continue
-    try:
+
+
+def sh(cmd, **kw):
+    return subprocess.run(cmd, shell=True, capture_output=True, text=True, **kw)
+
+
+def worker(slot, todo):
+    base = os.path.join(ROOT, "w%d" % slot)
+    repo = os.path.join(base, "repo")
+    env = dict(os.environ, VERIF_REPO=repo, VERIF_CACHE=os.path.join(base, "cache"), VERIF_EVIDENCE=os.path.join(base, "evidence"))
+    os.makedirs(repo, exist_ok=True)
+    out = {}
+    for sid in todo:
+        d = os.path.join(SEED, sid)
+        meta = json.load(open(os.path.join(d, "meta.json")))
+        prop = meta["property"]
+        kind = meta.get("kind", "breaking")
+        sh("rsync -a --delete --exclude target --exclude .git /repo/rust/ %s/rust/" % repo)
+        r = sh("cd %s && git apply --unsafe-paths %s/patch.diff" % (repo, d))
+        if r.returncode != 0:
+            out[sid] = {"applies": False, "error": r.stderr[-300:]}
+            print(sid, "PATCH DOES NOT APPLY", r.stderr[-200:], flush=True)
+            continue
         checks = claimed if all_checks else ([prop] if prop in claimed else [])
         fired = {}
         for c in checks:
-            p = subprocess.run("./check %s quick" % c, shell=True, cwd=VERIF, capture_output=True, text=True)
-            viol = [l.strip() for l in p.stdout.splitlines() if l.startswith("  [")]
+            p = subprocess.run("./check %s quick" % c, shell=True, cwd=VERIF, capture_output=True, text=True, env=env)
+            viol = [l.strip()[:300] for l in p.stdout.splitlines() if l.startswith("  [")]
             if p.returncode == 1 and "VIOLATION property=" in p.stdout:
                 fired[c] = viol[:4]
             elif p.returncode not in (0, 1):
                 fired[c] = ["CHECK ERROR exit %d: %s" % (p.returncode, p.stdout[-300:])]
-        results[sid] = {"applies": True, "property": prop, "own_check_built": prop in claimed, "detected_by": sorted(fired), "reports": fired}
+        out[sid] = {"applies": True, "property": prop, "kind": kind, "detected_by": sorted(fired), "reports": fired}
         meta["detected_by"] = sorted(fired)
         json.dump(meta, open(os.path.join(d, "meta.json"), "w"), indent=1)
-        print(sid, "own-check:", ("FIRED" if prop in fired else ("missed" if prop in claimed else "n/a")), "| fired:", sorted(fired))
-    finally:
-        subprocess.run("git -C /repo checkout -- .", shell=True)
+        tag = ("FIRED" if prop in fired else "missed") if kind == "breaking" else ("silent" if not fired else "ALARM")
+        print(sid, kind, "own-check:", tag, "| fired:", sorted(fired), flush=True)
+    return out
+
+
+os.makedirs(ROOT, exist_ok=True)
+chunks = [ids[i::jobs] for i in range(jobs)]
+try:
+    with ThreadPoolExecutor(max_workers=jobs) as ex:
+        for res in ex.map(lambda a: worker(*a), list(enumerate(chunks))):
+            results.update(res)
+finally:
+    shutil.rmtree(ROOT, ignore_errors=True)
 json.dump(results, open(os.path.join(SEED, "RESULTS.json"), "w"), indent=1, sort_keys=True)
